@@ -61,6 +61,10 @@ def shouldPrettyPrint (pwt : Option (List PStr)) (name : PStr) : Bool :=
   | none => true
   | some l => l.isEmpty || !l.contains name
 
+/-- `_should_pretty_print(indent_level)` with the argument given explicitly: `indent_level is not None and (…)` -/
+def shouldPrettyPrintAt (indentLevel : Option Int) (pwt : Option (List PStr)) (name : PStr) : Bool :=
+  indentLevel.isSome && shouldPrettyPrint pwt name
+
 /-- A rendered tree. `str ready`: a `NavigableString` (any subclass) with `ready = output_ready(formatter)`.
     `void tag`: a tag with `is_empty_element`, `tag = _format_tag(opening=True)`.
     `elem id opn cls pre kids`: any other tag; `id` stands for the object's identity (`decode` compares with `is`),
@@ -427,6 +431,11 @@ def encodeImpl (unit vcp : PStr) (encoding : PStr) (lvl : LevelArg) (r : RNode) 
 /-- `Tag.encode_contents(indent_level, encoding, formatter)` (element.py:2678-2696) -/
 def encodeContentsImpl (unit vcp : PStr) (lvl : LevelArg) (encoding : PStr) (r : RNode) : Out :=
   .bytes encoding (recvDecode unit vcp lvl (some encoding) true r)
+
+/-- deprecated `Tag.renderContents(encoding, prettyPrint, indentLevel)`: `if not prettyPrint: indentLevel = None`, then
+    `encode_contents(indent_level=indentLevel, encoding=encoding)` (always the default formatter) -/
+def renderContentsImpl (unit vcp : PStr) (encoding : PStr) (prettyPrint : Bool) (indentLevel : LevelArg) (r : RNode) : Out :=
+  encodeContentsImpl unit vcp (if prettyPrint then indentLevel else .none) encoding r
 
 /-- `Tag.prettify(encoding, formatter)` (element.py:2627-2648): without an encoding `self.decode(indent_level=0,
     formatter=formatter)` — `eventual_encoding` at the default of the `decode` that is reached — else `self.encode(encoding=
